@@ -680,6 +680,27 @@ class ModelMixin3:
             return [(Unknown('next'), st)] + outs
         if name == 'object':
             return [(ExtV('sentinel:anonymous'), st)]
+        if name in ('map', 'filter') and len(args) == 2 and not kwargs:
+            # map(f, xs) == [f(x) for x in xs] ; filter(f, xs) == [x for x in xs if f(x)] (f None: truth value) - evaluated eagerly
+            import ast as _ast
+            fname, xname, vname = '%mapf', '%mapxs', '%mapx'
+            st.frame.env[fname], st.frame.env[xname] = args[0], args[1]
+            call = _ast.Call(func=_ast.Name(id=fname, ctx=_ast.Load()), args=[_ast.Name(id=vname, ctx=_ast.Load())], keywords=[])
+            var = _ast.Name(id=vname, ctx=_ast.Load())
+            if name == 'map':
+                gen = _ast.comprehension(target=_ast.Name(id=vname, ctx=_ast.Store()), iter=_ast.Name(id=xname, ctx=_ast.Load()), ifs=[], is_async=0)
+                comp = _ast.ListComp(elt=call, generators=[gen])
+            else:
+                cond = var if isinstance(args[0], NoneV) else call
+                gen = _ast.comprehension(target=_ast.Name(id=vname, ctx=_ast.Store()), iter=_ast.Name(id=xname, ctx=_ast.Load()), ifs=[cond], is_async=0)
+                comp = _ast.ListComp(elt=var, generators=[gen])
+            _ast.copy_location(comp, node) if node is not None else None
+            _ast.fix_missing_locations(comp)
+            outs = self.comprehension(comp, st, 'list')
+            for _, s in outs:
+                for nme in (fname, xname, vname):
+                    s.frame.env.pop(nme, None)
+            return outs
         if name in ('map', 'filter'):
             self.note(f'{name}() is modelled as an unknown iterable')
             return [(Unknown(name), st)]
